@@ -110,3 +110,29 @@ CHECKS['C09'] = dict(
           dict(name='tear_sym', harness='c09_depslog.cc', units=_C09_UNITS, defines=['DAMAGE_TEAR', 'SMALL_MENU'], reach=['tear-some', 'done'], thorough_only=True,
                quick=dict(defines=['VERIF_RECORDS=1'], bounds='1 record with symbolic output (4), mtime (3), dependency list (4 menus); torn at every byte', limits=dict(time=1500)),
                thorough=dict(defines=['VERIF_RECORDS=2'], bounds='1..2 such records', limits=dict(time=3000, max_paths=3000000)))])
+
+SCENARIOS = ['chain', 'restat_then_deps', 'diamond_order_only', 'depfile_plain', 'deps_msvc', 'multi_out_phony', 'generator_validation', 'dyndep', 'generated_header_deps', 'pools', 'dyndep_static_consumer', 'dyndep_static_consumer_oo']
+_PIPE_ASSUME = ['commands are deterministic functions of the files they read at start (content ids), write only their declared outputs/depfile, and report every extra file they read through the depfile/deps/dyndep mechanism',
+                'modification times never go backwards: every write and every user edit gets a strictly later tick than anything before it',
+                'graph shapes: the scenario catalogue in harness/scenarios.h (shape is concrete manifest text parsed by the real ManifestParser); histories, schedules, options and faults are symbolic within the stated bounds',
+                'SubprocessSet, real signals, /bin/sh and the terminal are outside the encoding (CommandRunner, DiskInterface and Status are the cut points)']
+def _hist_jobs(check, quick_h, thorough_h, scenarios, extra_defs=(), fail=False, reach=('built', 'incremental-build')):
+    jobs = []
+    for i in scenarios:
+        jobs.append(dict(name='%s%s' % (SCENARIOS[i], '_fail' if fail else ''), harness='pipeline.cc', units=PIPELINE, defines=['SCENARIO=%d' % i, check] + list(extra_defs) + (['HISTORY_FAIL'] if fail else []),
+                         reach=list(reach), limits=dict(max_steps=30000000, time=1500),
+                         quick=dict(defines=['HISTORY=%d' % quick_h], bounds='scenario %s: %d invocations from the initial tree; before each later one any subset of sources edited, at most one output/depfile deleted, manifest variant switched; symbolic target subset, -j in {1,2}, every completion order%s' % (SCENARIOS[i], quick_h, '; in all but the last invocation any subset of commands fails (with or without touching outputs), -k in {1,2}' if fail else '')),
+                         thorough=dict(defines=['HISTORY=%d' % thorough_h], bounds='same with %d invocations' % thorough_h, limits=dict(time=3400, max_paths=3000000))))
+    return jobs
+CHECKS['C01'] = dict(
+    title='a successful incremental build equals a clean build',
+    level_text='Bounded symbolic execution of the whole real pipeline (manifest parser, dependency scan, plan, builder, build log and deps log on an in-memory file system) over histories of invocations: before each invocation the solver-chosen user operations edit sources or discovered headers, delete an output or switch the manifest variant; target subset, -j and the completion order of running commands are symbolic. After every invocation that returns success the harness asserts that every requested target and everything it transitively depends on has the content a from-scratch evaluation of the current sources produces.',
+    level_note='Trusted: IR generation, interpreter and VFS (cross-checked natively per run), z3, the harness kit (SymDisk, SymRunner, content model: 150 lines) and the 20-line from-scratch reference. Bounds: the 10 shapes of harness/scenarios.h, history length 2 (quick) / 3 (thorough), -j <= 2. Manifest regeneration through NinjaMain::RebuildManifest and histories containing interrupted builds are covered by C07, not here.',
+    assumptions=_PIPE_ASSUME,
+    jobs=_hist_jobs('CHECK_C01', 2, 3, range(12)) + _hist_jobs('CHECK_C01', 2, 3, [1, 3], fail=True, reach=('built',)) + [dict(j, thorough_only=True) for j in _hist_jobs('CHECK_C01', 2, 2, [0, 5], fail=True, reach=('built',))])
+CHECKS['C02'] = dict(
+    title='a build that succeeded leaves nothing to do',
+    level_text='Same symbolic histories as C01; after every invocation that returns success the identical request is issued twice more with nothing changed in between, and the harness asserts that neither starts a command and both report an up-to-date plan.',
+    level_note='Trusted base and bounds as C01. Commands rewrite all their outputs except restat-style commands, which leave identical outputs untouched (the property\'s assumption). No scenario contains an input-less phony statement without a file (the documented always-dirty case).',
+    assumptions=_PIPE_ASSUME + ['every non-restat command rewrites all of its declared outputs'],
+    jobs=_hist_jobs('CHECK_C02', 2, 3, range(10), reach=('built', 'converged-checked')))
